@@ -42,7 +42,10 @@ PROBES = ['rows_unsorted', 'multi_call_partition', 'custom_var',
           'estimates_only_call', 'repeated_request', 'tensor_input_columns',
           'frozen_checked_instances', 'mixed_type_temporal_column',
           'several_customs_in_one_dict', 'unknown_names_skipped',
-          'custom_shadows_builtin']
+          'custom_shadows_builtin', 'call_failed_midway_then_retried',
+          'failed_in_custom_var', 'failed_in_custom_estimate',
+          'custom_estimate_named_like_builtin', 'sentinel_call_checked',
+          'big_endian_input_columns']
 COMPONENTS = dict(cc.COMPONENTS)
 COMPONENTS['aurel.time.over_time / process_single_timestep / validate_*'] = \
     'real'
@@ -75,7 +78,26 @@ CUSTOM_EST = {
     'p90': lambda a: np.percentile(a, 90),
     'range': lambda a: np.max(a) - np.min(a),
     'corner': lambda a: a[-1, 0, -1],
+    # a user-defined estimator that carries the name of a predefined one
+    'mean': lambda a: np.sum(a * np.abs(a)) / (np.sum(np.abs(a)) + 1.0),
 }
+# the predefined estimators, written down independently of aurel.time
+EST_REF = {
+    'max': np.max, 'mean': np.mean, 'min': np.min, 'std': np.std,
+    'median': lambda a: np.percentile(a, 50),
+    'maxabs': lambda a: np.max(np.abs(a)),
+    'x0y0z0': lambda a: a[0, 0, 0], 'x1y1z1': lambda a: a[-1, -1, -1],
+    'sum': np.sum, 'var': np.var,
+    'quartile1': lambda a: np.percentile(a, 25),
+    'quartile3': lambda a: np.percentile(a, 75),
+    'minabs': lambda a: np.min(np.abs(a)),
+    'meanabs': lambda a: np.mean(np.abs(a)),
+}
+
+
+class InjectedFault(RuntimeError):
+    """Raised by a user function of the harness at a seeded invocation."""
+
 ALG_VARS = ['enthalpy', 'Ttrace', 'rho_n',
             'Ktrace', 'gammadet', 'A2', 's_RicciS', 'Hamiltonian', 'gdet',
             'rho_n', 'Kup3', 'betamag', 'psi_bssnok', 'Momentumx', 'gtt',
@@ -130,6 +152,8 @@ def generate(rng, tier):
             seen.add(k)
             uniq.append(e)
     ests = uniq
+    if any(e.get('custom') == 'mean' for e in ests):
+        ests = [e for e in ests if e.get('name') != 'mean']
     ncalls = g.weighted([(1, 3), (2, 4), (3, 2), (4, 1)])
     ncalls = max(1, min(ncalls, len(vars_) + 1))
     cuts = sorted(g.sample(range(1, len(vars_)), min(ncalls - 1,
@@ -158,8 +182,26 @@ def generate(rng, tier):
     if g.chance(0.3):
         calls.append({'vars': [], 'ests': list(range(len(ests)))})
     calls[-1]['ests'] = list(range(len(ests)))
+    # fault: one call fails midway (a user function raises at its n-th
+    # invocation), the caller looks at its table and runs the call again
+    gf = rng.child('c14faults')
+    fail = None
+    if gf.chance(0.3):
+        cands = []
+        for ci, call in enumerate(calls):
+            if any('custom' in vars_[vi] and vars_[vi]['custom'] != 'press'
+                   for vi in call['vars']):
+                cands.append((ci, 'var'))
+            if any('custom' in ests[ei] for ei in call['ests']):
+                cands.append((ci, 'est'))
+        if cands:
+            ci, what = gf.pick(cands)
+            fail = {'call': ci, 'what': what,
+                    'at': gf.weighted([(1, 1), (2, 3), (3, 3), (4, 2), (6, 2),
+                                       (9, 1)])}
     return {'config': cfg, 'ops': calls, 'nsteps': nsteps, 'tkeys': tkeys,
-            'order': order, 'vars': vars_, 'ests': ests,
+            'order': order, 'vars': vars_, 'ests': ests, 'fail': fail,
+            'big_endian': gf.chance(0.12), 'sentinel': gf.chance(0.5),
             'dt': g.pick([0.25, 0.5, 1.0]),
             'myscale': g.pick([2.5, -1.0, 0.5]),
             # the earliest time value is given as a Python int (mixed-type
@@ -173,6 +215,8 @@ def fixup(run):
         return None
     run = copy.deepcopy(run)
     run['ops'][-1]['ests'] = list(range(len(run['ests'])))
+    if run.get('fail') and run['fail']['call'] >= len(run['ops']):
+        run['fail'] = None
     return run
 
 
@@ -186,9 +230,12 @@ def simplify(run):
         c = copy.deepcopy(run); c['order'] = sorted(c['order']); yield c
     if len(run['tkeys']) > 1:
         c = copy.deepcopy(run); c['tkeys'] = c['tkeys'][:1]; yield c
-    for flag in ('t_int_first', 'merge_custom', 'bogus_names'):
+    for flag in ('t_int_first', 'merge_custom', 'bogus_names', 'big_endian',
+                 'sentinel'):
         if run.get(flag):
             c = copy.deepcopy(run); c[flag] = False; yield c
+    if run.get('fail'):
+        c = copy.deepcopy(run); c['fail'] = None; yield c
     for i in range(len(run['ests'])):
         if len(run['ests']) > 1:
             c = copy.deepcopy(run)
@@ -266,6 +313,13 @@ def execute(run):
     table = {tk: [tval[tk](k) for k in order] for tk in run['tkeys']}
     for key in sorted(worlds[0].data):
         table[key] = [np.array(worlds[k].data[key]) for k in order]
+        if run.get('big_endian'):
+            # arrays as they come out of big-endian files: same values,
+            # non-native byte order
+            table[key] = [a.astype(a.dtype.newbyteorder('>'))
+                          for a in table[key]]
+    if run.get('big_endian'):
+        probe('big_endian_input_columns')
     if order != sorted(order):
         fault('rows_unsorted')
     if len(run['tkeys']) > 1:
@@ -333,6 +387,8 @@ def execute(run):
                 else:
                     elist.append({e['custom']: CUSTOM_EST[e['custom']]})
                     probe('custom_estimate')
+                    if e['custom'] in EST_REF:
+                        probe('custom_estimate_named_like_builtin')
             if run.get('bogus_names') and ci == 0:
                 # unknown names are documented to be reported and skipped
                 vlist = ['not_a_variable'] + vlist
@@ -348,6 +404,46 @@ def execute(run):
                               for x in elist]), sorted(data.keys()),
                       len(vlist), len(elist))
             din = data
+            fail = run.get('fail') if (run.get('fail') or {}).get(
+                'call') == ci else None
+            if fail:
+                # the same request, but one user function raises at its n-th
+                # invocation; afterwards the caller's table must be as it was
+                # and the call is simply run again
+                fv, fe = _with_failure(vlist, elist, fail)
+                din_digest = {k: digest(np.asarray(v)) if not isinstance(
+                    v, list) else digest(v) for k, v in din.items()}
+                try:
+                    aurel.over_time(din, fd, vars=fv, estimates=fe,
+                                    verbose=False, **kw)
+                    probe('failure_not_reached')
+                except InjectedFault:
+                    fault('call_failed_midway_then_retried')
+                    fault('failed_in_custom_' + ('var' if fail['what'] == 'var'
+                                                 else 'estimate'))
+                    now = {k: digest(np.asarray(v)) if not isinstance(
+                        v, list) else digest(v) for k, v in din.items()}
+                    if now != din_digest:
+                        chg = sorted(k for k in set(now) | set(din_digest)
+                                     if now.get(k) != din_digest.get(k))
+                        bad('args_mutated:over_time:after_failed_call',
+                            f'call#{ci} over_time failed midway (a user '
+                            f'function raised) and left the caller\'s table '
+                            f'changed in {chg[:6]}', ci)
+                        break
+                except Exception as e:  # noqa: BLE001
+                    site, line = coresim.exc_site(e)
+                    if 'read-only' in str(e):
+                        bad(f'mutation:write_in:{site}',
+                            f'call#{ci} over_time wrote in place into an '
+                            f'input array at {site}: `{line}`', ci)
+                        break
+                    bad(f'over_time:raised:{type(e).__name__}:{site}',
+                        f'call#{ci} over_time raised {type(e).__name__}: {e} '
+                        f'at {site} `{line}` (a user function was about to '
+                        f'fail at invocation {fail["at"]})', ci)
+                    break
+                tr.event('failed_call', ci=ci)
             try:
                 data = aurel.over_time(din, fd, vars=vlist, estimates=elist,
                                        verbose=False, **kw)
@@ -377,6 +473,11 @@ def execute(run):
             for nm, _ in reg.changed():
                 bad('mutation:changed:input_column', f'call#{ci} over_time '
                     f'changed {nm} in place', ci)
+        if not viol and run.get('sentinel'):
+            # an ordinary call on another small table afterwards: whatever the
+            # earlier calls (incl. the failed one) left behind in the process
+            # must not show
+            _sentinel(aurel, fd, worlds[0], kw, bad, probe, len(run['ops']))
     finally:
         core.AurelCore = old_cls
     if ncalls_done > 1:
@@ -420,6 +521,70 @@ def execute(run):
                         'values_compared': compared,
                         'calc_ticks': sum(i.calculation_count
                                           for i in created)}}
+
+
+def _with_failure(vlist, elist, fail):
+    """Copies of the request lists in which the first custom variable (or
+    estimator) raises InjectedFault at its n-th invocation."""
+    count = [0]
+
+    def wrap(fn):
+        def flaky(x):
+            count[0] += 1
+            if count[0] == fail['at']:
+                raise InjectedFault(f'user function failed at invocation '
+                                    f'{count[0]}')
+            return fn(x)
+        return flaky
+    done = [False]
+
+    def conv(lst, shadow_ok):
+        out = []
+        for item in lst:
+            if isinstance(item, dict) and not done[0]:
+                d = {}
+                for k, fn in item.items():
+                    if not done[0] and (shadow_ok or k not in SHADOWING):
+                        d[k] = wrap(fn)
+                        done[0] = True
+                    else:
+                        d[k] = fn
+                out.append(d)
+            else:
+                out.append(item)
+        return out
+    if fail['what'] == 'var':
+        return conv(vlist, False), list(elist)
+    return list(vlist), conv(elist, True)
+
+
+def _sentinel(aurel, fd, world, kw, bad, probe, opi):
+    names = ['mean', 'max', 'min', 'median', 'std', 'maxabs', 'x0y0z0']
+    key = sorted(k for k in world.data if np.ndim(world.data[k]) == 3)
+    if not key:
+        return
+    key = key[0]
+    a0 = np.array(world.data[key])
+    tab = {'it': [0, 1], key: [a0 * 1.5 + 0.25, a0 - 0.5]}
+    try:
+        out = aurel.over_time(tab, fd, vars=[], estimates=list(names),
+                              verbose=False, **kw)
+    except Exception as e:  # noqa: BLE001
+        bad(f'sentinel:raised:{type(e).__name__}', 'an ordinary over_time '
+            f'call after the history raised {type(e).__name__}: {e}', opi)
+        return
+    probe('sentinel_call_checked')
+    for en in names:
+        for r in range(2):
+            want = EST_REF[en](np.asarray(tab[key][r]))
+            got = out.get(f'{key}_{en}', [None, None])[r]
+            if got is None or not np.array_equal(np.asarray(got),
+                                                 np.asarray(want),
+                                                 equal_nan=True):
+                bad(f'sentinel:estimate:{en}', f'an ordinary over_time call '
+                    f'on another table after the history: {key}_{en} row {r} '
+                    f'= {got!r}, {en}() of the array = {want!r}', opi)
+                return
 
 
 def _check_table(run, cfg, worlds, order, tkey, tval, data, bad, tr):
@@ -472,7 +637,9 @@ def _check_table(run, cfg, worlds, order, tkey, tval, data, bad, tr):
             return 0
     for key in sorted(worlds[0].data):
         for r, k in enumerate(srt):
-            if digest(np.asarray(data[key][r])) != digest(
+            got_ = np.asarray(data[key][r])
+            got_ = got_.astype(got_.dtype.newbyteorder('='))   # by value
+            if digest(got_) != digest(
                     np.asarray(worlds[k].data[key])):     # NaN-safe, bytewise
                 bad('input_column_not_preserved', f'input column {key!r} '
                     f'row {r} does not hold step {k}\'s input', last)
@@ -508,8 +675,9 @@ def _check_table(run, cfg, worlds, order, tkey, tval, data, bad, tr):
     for sk in scalar_keys:
         for e in run['ests']:
             en = e.get('name') or e.get('custom')
-            import aurel.time as at
-            fn = at.est_functions[en] if 'name' in e else CUSTOM_EST[en]
+            fn = EST_REF[en] if 'name' in e else CUSTOM_EST[en]
+            if 'custom' in e and en in EST_REF:
+                tr.event('custom_est_named_like_builtin')
             for r in range(len(srt)):
                 want = fn(np.asarray(data[sk][r]))
                 got = data[f'{sk}_{en}'][r]
